@@ -25,9 +25,12 @@ def rat(v):
 
 
 class Affine(tp.models.Model):
-    def __init__(self, a0, b0):
+    def __init__(self, a0, b0, tied=False):
         super().__init__(X, Uo)
         self.lin = torch.nn.Linear(1, 1).double()
+        if tied:          # one submodule registered under two names (weight tying): state_dict lists both, parameters() one
+            self.enc = torch.nn.Linear(1, 1).double()
+            self.dec = self.enc
         with torch.no_grad():
             self.lin.weight.fill_(float(a0))
             self.lin.bias.fill_(float(b0))
@@ -54,10 +57,15 @@ class Rec(torch.nn.Module):
 
 
 def build(cfg, log):
-    model = Affine(cfg["a0"], cfg["b0"])
+    model = Affine(cfg["a0"], cfg["b0"], tied=cfg.get("tied", False))
     kap = tp.models.Parameter(float(cfg["k0"]), tp.spaces.R1("kappa"))
     kap.as_tensor.data = kap.as_tensor.data.double()
     objs = {"model": model, "kap": kap, "adapt": None}
+
+    # condition names: unique ones, or (every second configuration) the library's defaults, which coincide for
+    # conditions of the same class
+    def nm(cid):
+        return {"name": "c%d" % cid} if cfg.get("named", True) else {}
 
     def mk(c, cid, train):
         xs = torch.tensor([[float(x)] for x in c["xs"]], dtype=torch.float64) if c["xs"] else None
@@ -65,14 +73,14 @@ def build(cfg, log):
         smp = tp.samplers.DataSampler(Points(xs, X)).make_static() if xs is not None else None
         p, q = c.get("p", 0), c.get("q", 0)
         if c["kind"] == "fit":
-            cond = tp.conditions.PINNCondition(model, smp, lambda u, x: u - (p * x + q), weight=w, name="c%d" % cid)
+            cond = tp.conditions.PINNCondition(model, smp, lambda u, x: u - (p * x + q), weight=w, **nm(cid))
         elif c["kind"] == "inv":
-            cond = tp.conditions.PINNCondition(model, smp, lambda u, x, kappa: u - kappa * x, parameter=kap, weight=w, name="c%d" % cid)
+            cond = tp.conditions.PINNCondition(model, smp, lambda u, x, kappa: u - kappa * x, parameter=kap, weight=w, **nm(cid))
         elif c["kind"] == "pen":
             cc = c["c"]
-            cond = tp.conditions.ParameterCondition(kap, lambda kappa: (kappa - cc) ** 2, weight=w, name="c%d" % cid)
+            cond = tp.conditions.ParameterCondition(kap, lambda kappa: (kappa - cc) ** 2, weight=w, **nm(cid))
         elif c["kind"] == "adapt":
-            cond = tp.conditions.AdaptiveWeightsCondition(model, smp, lambda u, x: u - (p * x + q), weight=w, name="c%d" % cid)
+            cond = tp.conditions.AdaptiveWeightsCondition(model, smp, lambda u, x: u - (p * x + q), weight=w, **nm(cid))
             cond.adaptive_layer.double()
             objs["adapt"] = cond
         else:
@@ -82,12 +90,13 @@ def build(cfg, log):
     val = [mk(c, 100 + i + 1, False) for i, c in enumerate(cfg["val"])]
     opt_args = {"momentum": cfg["mun"] / cfg["mud"]} if cfg["mun"] else {}
     if cfg["ssize"] > 0:
-        setting = tp.OptimizerSetting(torch.optim.SGD, lr=cfg["lrn"] / cfg["lrd"], optimizer_args=opt_args,
+        setting = tp.OptimizerSetting(torch.optim.SGD, lr=cfg["lrn"] / cfg["lrd"], **({"optimizer_args": opt_args} if opt_args else {}),
                                       scheduler_class=torch.optim.lr_scheduler.StepLR,
                                       scheduler_args={"step_size": cfg["ssize"], "gamma": cfg["gn"] / cfg["gd"]},
                                       scheduler_frequency=cfg["freq"])
     else:
-        setting = tp.OptimizerSetting(torch.optim.SGD, lr=cfg["lrn"] / cfg["lrd"], optimizer_args=opt_args)
+        # (no momentum: the default optimizer_args of OptimizerSetting, as most users write it)
+        setting = tp.OptimizerSetting(torch.optim.SGD, lr=cfg["lrn"] / cfg["lrd"], **({"optimizer_args": opt_args} if opt_args else {}))
     solver = tp.solver.Solver(train, val, optimizer_setting=setting)
     return solver, objs
 
@@ -147,7 +156,7 @@ def fit(cfg, steps, workdir, callbacks_extra=(), ckpt_path=None, log=None):
 
 
 def run_one(s):
-    cfg = s["cfg"]
+    cfg = dict(s["cfg"], named=(s["tid"] % 2 == 1))
     wd = tempfile.mkdtemp(prefix="c07-", dir=os.environ.get("VERIF_TMP", None))
     try:
         r = watched(lambda: fit(cfg, cfg["N"], wd), 60)
